@@ -118,9 +118,18 @@ func verifSetup(nsegs, maxDocs, nIDs int) (*Scorch, *IndexSnapshot, []int, []byt
 // The obsoletes map is either complete (computed against this root, as prepareSegment does) or lacks
 // the entry of one segment (the root changed since: introduceSegment must recompute it).
 func VerifH_C01_IntroduceStep() {
-	nIDs := rt.Param("ids", 2)
-	nsegs := rt.Choice("nsegs", rt.Param("max_segs", 2)+1)
-	s, root, oldLive, oldInt := verifSetup(nsegs, rt.Param("max_docs", 2), nIDs)
+	verifIntroduceStep(rt.Param("ids", 2), rt.Param("max_segs", 2), rt.Param("max_docs", 2))
+}
+
+// VerifH_C04_IntroduceStepWide: the same step on one wider segment (up to 3 documents over 3 ids), so
+// that a segment can carry more deletions than the batch adds to it (bitmaps of different sizes).
+func VerifH_C04_IntroduceStepWide() {
+	verifIntroduceStep(3, 1, rt.Param("max_docs", 3))
+}
+
+func verifIntroduceStep(nIDs, maxSegs, maxDocs int) {
+	nsegs := rt.Choice("nsegs", maxSegs+1)
+	s, root, oldLive, oldInt := verifSetup(nsegs, maxDocs, nIDs)
 	root.AddRef() // a reader keeps the old snapshot
 	b := verifBatch(nIDs)
 	var data segment.Segment
